@@ -1,6 +1,6 @@
 //! Trace vocabulary: what the instrumented world records and the monitor judges.
 
-use super::ops::{FailStep, Kind, PostRet, TRet};
+use super::ops::{CKind, FailStep, Kind, PostRet, TRet};
 use serde::{Deserialize, Serialize};
 use std::cell::{Cell, RefCell};
 use std::rc::Rc;
@@ -62,6 +62,8 @@ pub enum Payload {
     Probe { sub: u8, synthetic: bool },
     /// executor output
     Out { task: TaskId, val: u8 },
+    /// event of child `child` of a composite source
+    Child { child: u8, inner: Box<Payload> },
 }
 
 /// Resolved operation (indices already reduced onto the tables).
@@ -82,6 +84,7 @@ pub enum ROp {
     PeerWrite { src: SrcId, n: u32 },
     OwnRead { src: SrcId, n: u32 },
     PeerClose { src: SrcId },
+    CompPoke { src: SrcId, child: u8 },
     /// deadline in ns since epoch; followed by ROp::Update by the interpreter
     SetDeadline { src: SrcId, deadline_ns: i64 },
     SetInterest { src: SrcId, interest: u8, mode: u8 },
@@ -109,6 +112,9 @@ pub struct KInfo {
     pub deadline_ns: Option<i64>,
     /// Generic re-created over the fd released by this older source
     pub recycled_from: Option<SrcId>,
+    /// composite sources: per child (kind, transient, fd or -1, initial deadline)
+    #[serde(default)]
+    pub children: Vec<(CKind, bool, i32, Option<i64>)>,
 }
 
 #[derive(Serialize, Deserialize, Debug, Clone, PartialEq)]
@@ -166,6 +172,8 @@ pub struct Shared {
     pub forced: Cell<Option<(SrcId, PostRet)>>,
     /// sources whose process_events returned Remove since the world last looked
     pub ret_removed: RefCell<Vec<SrcId>>,
+    /// post action the last callback of a composite's child asked for: (composite, child, action)
+    pub child_forced: Cell<Option<(SrcId, u8, PostRet)>>,
     pub thread: std::thread::ThreadId,
 }
 
@@ -180,6 +188,7 @@ impl Shared {
             cur_proc: Cell::new(None),
             forced: Cell::new(None),
             ret_removed: RefCell::new(Vec::new()),
+            child_forced: Cell::new(None),
             thread: std::thread::current().id(),
         })
     }
